@@ -53,7 +53,7 @@ CLAIMS = {
          "Mixed separators, offsets 15:00-23:59, lower-case t/z and year 0000 are unspecified: only 'if accepted, the instant is the reference instant' is asserted.", "DESIGN.md §4 C16"),
  "C17": ("deterministic simulation: history check over everything a run emitted (capturing log seam, errors, Debug/Display) with a secret-material scanner",
          "Seeded search over tampered/defective/provider-failing/accepted deliveries; every emitted text is scanned for each secret, derived key and withheld correct signature in raw, hex, base64 and decimal-list form; a kept authenticator is validated with and rendered afterwards; over-long stored secrets count as secrets; the correct signature *as presented* by a request that is refused all the same may be echoed by errors and Debug but not by a log record at debug level or above.",
-         "Secrets shorter than 8 bytes are not searched for; provider error texts come from the harness.", "DESIGN.md §4 C17, §10.5–§10.7"),
+         "Secrets shorter than 8 bytes are not searched for by the scanner (the key types' own renderings are compared for two secrets instead, at any length); provider error texts come from the harness.", "DESIGN.md §4 C17, §10.5–§10.7"),
  "C18": ("deterministic simulation: baton-scheduled real threads at log/provider seams, all validations in flight on one executor thread, harness-owned hash seeds, fresh processes with contended first use, real-parallel hammer, Miri's seeded scheduler (thorough); outcome equality against a single-thread golden",
          "Seeded search over schedules × hash seeds × processes for a per-run corpus; the baton schedule is recorded and replays exactly; a violation that depends on earlier runs of the same process is replayed with that history in a fresh process; message text is not part of the outcome. One thread-engine run in three shares a key-store connection pool among the threads (back-pressure through poll_ready); each run abandons 4-32 validations mid-await and re-evaluates the corpus; the corpus is also evaluated with the process-wide log level lowered.",
          "Preemption only at seams in the native engine; the real-parallel phases are scheduled by the OS (their assertion holds for every schedule; a failure is re-found by re-running up to 40 times, not replayed step by step); Miri tier runs only when the nightly toolchain is present and is skipped otherwise.", "DESIGN.md §4 C18, §10.2, §10.5–§10.7"),
